@@ -1,8 +1,10 @@
-(* Extraction of the hand-written executable model of C10 (ExtrOcamlBasic only). *)
+(* Extraction of the hand-written executable model of C10 and of the GENERATED functions that are run against the real code
+   (Gen_Holder.*, Gen_ExtraCheckH/T.pvExtraCheck, Gen_TreeSwap.Swap) -- ExtrOcamlBasic only. *)
 From Coq Require Import ZArith List Extraction ExtrOcamlBasic.
-From C10 Require Gen_Holder Machine Merge ArrayShift MapModel FastMerge BulkOps FastPtr.
+From C10 Require Gen_Holder Gen_ExtraCheckH Gen_ExtraCheckT Gen_TreeSwap Machine Merge ArrayShift MapModel FastMerge BulkOps FastPtr.
 Separate Extraction
-  Gen_Holder.IsEmpty Gen_Holder.Clear Gen_Holder.Create Gen_Holder.Remove Merge.add_holder Merge.std_insert_hint
+  Gen_Holder.IsEmpty Gen_Holder.Clear Gen_Holder.Create Gen_Holder.Remove
+  Gen_ExtraCheckH.pvExtraCheck Gen_ExtraCheckT.pvExtraCheck Gen_TreeSwap.Swap Merge.add_holder Merge.std_insert_hint
   Machine.relocate Machine.replace Machine.replace_relocate Machine.nothrow_reloc
   Merge.hmerge Merge.tmerge Merge.lmerge Merge.tree_merge_to Merge.src_items Merge.tsrc_items
   Merge.extract_at Merge.insert_holder Merge.holder_move Merge.holder_clear
